@@ -11,12 +11,12 @@ CHECKS = {
    text="Seeded histories of bind/copy/nest/pass/mutate/observe events over arrays and maps of sizes 0..20 (both sides of the 8-element/4-pair thresholds) run as inputs on one real session; after every event every live name is observed as a typed canonical tree and compared with a copy-on-bind reference model; failing operations must change nothing and an assignment cancelled by a deadline fault at a random virtual tick must leave old or new value. Recorded in-place-mutation findings on large containers are matched by (kind, container, size class, mutation family), counted, and the session re-synchronised so the search continues; any mismatch on small containers or on another path is a VIOLATION.",
    note="The model encodes copy-on-bind value semantics as the documented behaviour; elements are integers or nested containers, map keys strings.",
    tech="deterministic simulation: seeded operation histories + injected cancellation, checked after every step against a small executable value-semantics model"),
- "C09": dict(cat="exploration", ref="5.5",
-   text="(a) for 22 programs (non-terminating loops of every for form, unbounded/mutual recursion, closures, heavy operators, sleep) the virtual deadline is swept over EVERY tick 1..min(T,cap): EvalOne must return, polls after firing stay within N*(D+2), the outcome is an error/recovered panic, virtual sleep honours the deadline, a probe input works afterwards; a runaway evaluation (2M polls after firing) is broken by the simulator and reported. (b) MaxDepth 10..3000 with direct/mutual/closure/eval()/nested-source recursion must end in the max-depth guard or a value, and a recursion calibrated to MaxDepth-eps must succeed right after. (c) child processes under RLIMIT_AS=4GiB and GOMEMLIMIT=64MiB evaluate repetition/range/concat/doubling programs with operands across 2^31/2^63 through repl.EvalStringWithOption and must exit normally with a result or the memory/depth guard.",
-   note="No real clock: wall-clock latency of cancellation is not decided (one tick = one evaluated node). Peak RSS is not judged. A child exceeding 120 s real time is noted, not judged.",
-   tech="deterministic simulation: virtual-clock deadline swept over every cancellation instant, depth guard under random limits, memory guard via injected budget and address-space-limited child processes"),
+ "C09": dict(cat="exploration", ref="5.5, 10",
+   text="(a) for 22 programs (non-terminating loops of every for form, unbounded/mutual recursion, closures, heavy operators, sleep) the virtual deadline is swept over EVERY tick 1..min(T,cap): EvalOne must return, polls after firing stay within N*(D+2), the outcome is an error/recovered panic, virtual sleep honours the deadline, a probe input works afterwards. (b) MaxDepth 10..3000 with direct/mutual/closure/eval()/nested-source recursion must end in the max-depth guard or a value, and a recursion calibrated to MaxDepth-eps must succeed right after. (c) child processes under RLIMIT_AS=4GiB and GOMEMLIMIT=64MiB evaluate repetition/range/concat/doubling/macro-recursion programs with operands across 2^31/2^63 and in the free/16..free band; they must exit normally with a result within the budget or the memory/depth guard. (d) evaluators that used to run without a context (unjson, eval, macro bodies and arguments) under a virtual deadline. Every sub-scenario runs in a watchdog child, so an evaluation that never polls the context again, a fatal stack overflow or an OOM kill is reported as a violation instead of hanging or killing the harness.",
+   note="No real clock decides a verdict except the watchdogs (180 s / 45 s of real time for evaluations that take milliseconds when correct). Wall-clock latency of cancellation and peak RSS are not judged. One recorded finding: fat-frame recursion overflows the Go stack at the default depth limit.",
+   tech="deterministic simulation: virtual-clock deadline swept over every cancellation instant, depth guard under random limits, memory guard via injected budget; all inside address-space-limited watchdog child processes"),
  "C10": dict(cat="exploration", ref="5.6",
-   text="Seeded search over session histories: each base history of succeeding inputs is executed on the real interpreter with and without side-effect-free failing inputs (language error, Go runtime panic in a function, depth overflow, deadline at a PRNG-chosen virtual tick, injected allocation refusal, writer error) inserted at random positions/multiplicities; every later input must produce identical output/value/outcome (and identical tick count with the cache off), and final globals must agree. Sampling, not proof.",
+   text="Seeded search over session histories: each base history of succeeding inputs is executed on the real interpreter with and without side-effect-free failing inputs (language error, Go runtime panic in a function or in a callee of a top-level loop, depth overflow, deadline at a PRNG-chosen virtual tick, injected allocation refusal, writer error, register-only loop errors) inserted at random positions with multiplicity 1..11 (slot and depth leaks only show after several failures); every later input must produce identical output/value/outcome (and identical tick count with the cache off), and final globals must agree. Sampling, not proof.",
    note="Trusts the harness generator's construction of side-effect-free failing inputs and the virtual clock (1 tick per evaluated node) standing for real deadlines; error wording is not compared.",
    tech="deterministic simulation: seeded session histories + injected cancellation/allocation/writer faults, differential against the fault-free history of the same real code"),
 
